@@ -158,4 +158,14 @@ def selectTransitions (m : Machine) (cfg : List Path) (env : GEnv) (ev : Ev) :
   | .error e => .error e
   | .ok sel => .ok (sortBy (fun a b => a.src.length ≥ b.src.length) sel)
 
+/-- `BaseInterpreter.can(event)`: `bool(self._select_transitions(event_obj))` inside
+    `try … except Exception: return False`. The event is already an event object here
+    (`_coerce_event` is outside the model; its `TypeError` is raised before the `try`).
+    So a selection that raises (a guard without implementation) reports `False`; nothing but a
+    Boolean is returned, no interpreter state is touched. -/
+def can (m : Machine) (cfg : List Path) (env : GEnv) (ev : Ev) : Bool :=
+  match selectTransitions m cfg env ev with
+  | .ok sel => !sel.isEmpty
+  | .error _ => false
+
 end XSM
